@@ -31,9 +31,8 @@ def _charset(items, flags):
         elif op is sc.RANGE:
             preds.append(('range', av))
         elif op is sc.CATEGORY:
-            if not (flags & re.ASCII):
-                raise Unsupported('category %s without re.ASCII' % av)
-            preds.append(('cat', av))
+            # without re.ASCII a category of a str pattern is the Unicode one (\d = every decimal digit of every script)
+            preds.append(('cat', av) if (flags & re.ASCII) else ('ucat', av))
         else:
             raise Unsupported(str(op))
     return neg, tuple(preds)
@@ -56,6 +55,23 @@ def _cat(cat, c):
     raise Unsupported(str(cat))
 
 
+def _ucat(cat, c):
+    ch = chr(c)
+    if cat is sc.CATEGORY_DIGIT:
+        return ch.isdecimal()
+    if cat is sc.CATEGORY_NOT_DIGIT:
+        return not ch.isdecimal()
+    if cat is sc.CATEGORY_SPACE:
+        return ch.isspace()
+    if cat is sc.CATEGORY_NOT_SPACE:
+        return not ch.isspace()
+    if cat is sc.CATEGORY_WORD:
+        return ch.isalnum() or ch == '_'
+    if cat is sc.CATEGORY_NOT_WORD:
+        return not (ch.isalnum() or ch == '_')
+    raise Unsupported(str(cat))
+
+
 def cs_match(cs, c):
     neg, preds = cs
     r = False
@@ -65,6 +81,8 @@ def cs_match(cs, c):
         elif k == 'range' and av[0] <= c <= av[1]:
             r = True
         elif k == 'cat' and _cat(av, c):
+            r = True
+        elif k == 'ucat' and _ucat(av, c):
             r = True
     return r != neg
 
@@ -185,9 +203,13 @@ def representatives(nfas, exclude=()):
                         pts.update((av, av + 1))
                     elif k == 'range':
                         pts.update((av[0], av[1] + 1))
-                    elif k == 'cat':
+                    elif k in ('cat', 'ucat'):
                         for a, b in ((48, 57), (65, 90), (97, 122), (95, 95), (9, 13), (32, 32), (128, 128)):
                             pts.update((a, b + 1))
+                        if k == 'ucat':
+                            # witnesses beyond ASCII: a no-break space, a letter, Arabic-Indic and fullwidth digits
+                            for a, b in ((0xA0, 0xA0), (0xE9, 0xE9), (0x660, 0x669), (0xFF10, 0xFF19)):
+                                pts.update((a, b + 1))
     pts.update((10, 11))
     cuts = sorted(p for p in pts if 0 <= p <= MAXCP + 1)
     reps = []
